@@ -23,7 +23,9 @@ HARNESSES = {
     'C16': [dict(name='c16_constrained', src=['C16_constrained.cpp'], flavour='asan')],
     'C15': [dict(name='c15_informed', src=['C15_informed.cpp'], flavour='asan')],
     'C14': [dict(name='c14_dubins', src=['C14_dubins.cpp'], flavour='asan', cflags=['-O2'])],
-    'C18': [dict(name='c18_ptc', src=['C18_ptc.cpp'], flavour='asan')],
+    'C18': [dict(name='c18_ptc', src=['C18_ptc.cpp'], flavour='asan'),
+            dict(name='c18_threads', src=['C19_threads.cpp'], flavour='tsi', cflags=['-DSCEN_C18'], ldflags=['-rdynamic']),
+            dict(name='c19_tsan', src=['C19_threads.cpp'], flavour='tsan', cflags=['-DC19_FREERUN'], nojobs=True)],
     'C17': [dict(name='c17_simplify', src=['C17_simplify.cpp'], flavour='asan')],
     'C02': [dict(name='c02_control', src=['C02_control.cpp'], flavour='asan')],
     'C20': [dict(name='c20_repro', src=['C20_repro.cpp'], flavour='asan')],
